@@ -369,75 +369,205 @@ func (w *world) dispatchers() []string {
 		cmdField := "?"
 		unknownIsErr := false
 		peekMin := 0
-		var hdrObj types.Object
+		var dataObj, pduObj types.Object
+		if ps := fd.Type.Params.List; len(ps) == 1 && len(ps[0].Names) == 1 {
+			dataObj = info.ObjectOf(ps[0].Names[0])
+		}
+		errType := types.Universe.Lookup("error").Type()
+		isErrVar := func(x ast.Expr) bool {
+			id, ok := unparen(x).(*ast.Ident)
+			return ok && info.ObjectOf(id) != nil && types.Identical(info.TypeOf(id), errType)
+		}
+		isNil := func(x ast.Expr) bool { id, ok := unparen(x).(*ast.Ident); return ok && id.Name == "nil" }
+		isPdu := func(x ast.Expr) bool { return pduObj != nil && isObj(e, x, pduObj) }
+		// pdu.IDecode(data)
+		isDecodeCall := func(x ast.Expr) bool {
+			c, ok := unparen(x).(*ast.CallExpr)
+			if !ok || len(c.Args) != 1 || !isObj(e, c.Args[0], dataObj) {
+				return false
+			}
+			se, ok := c.Fun.(*ast.SelectorExpr)
+			return ok && se.Sel.Name == "IDecode" && isPdu(se.X)
+		}
+		// return nil, <ErrUnsupportedPacket>
+		isUnsupportedReturn := func(st ast.Stmt) bool {
+			r, ok := st.(*ast.ReturnStmt)
+			if !ok || len(r.Results) != 2 || !isNil(r.Results[0]) {
+				return false
+			}
+			var o types.Object
+			switch x := unparen(r.Results[1]).(type) {
+			case *ast.SelectorExpr:
+				o = info.Uses[x.Sel]
+			case *ast.Ident:
+				o = info.Uses[x]
+			}
+			return o != nil && o.Name() == "ErrUnsupportedPacket" && o.Pkg() != nil && o.Pkg().Path() == modPath
+		}
+		// return nil, err
+		isErrReturn := func(st ast.Stmt) bool {
+			r, ok := st.(*ast.ReturnStmt)
+			return ok && len(r.Results) == 2 && isNil(r.Results[0]) && isErrVar(r.Results[1])
+		}
+		newType := func(finfo *types.Info, x ast.Expr) string {
+			if call, ok := unparen(x).(*ast.CallExpr); ok {
+				if id, ok := call.Fun.(*ast.Ident); ok && id.Name == "new" && len(call.Args) == 1 {
+					if nt, ok := finfo.TypeOf(call.Args[0]).(*types.Named); ok {
+						return nt.Obj().Pkg().Name() + "." + nt.Obj().Name()
+					}
+				}
+			}
+			if u, ok := unparen(x).(*ast.UnaryExpr); ok && u.Op == token.AND { // &T{}
+				if cl, ok := u.X.(*ast.CompositeLit); ok && len(cl.Elts) == 0 {
+					if nt, ok := finfo.TypeOf(cl).(*types.Named); ok {
+						return nt.Obj().Pkg().Name() + "." + nt.Obj().Name()
+					}
+				}
+			}
+			return "?"
+		}
+		// the clauses of `switch tag { case C: <pdu = | return> new(T) … }`; assign=true: clause bodies assign to the PDU variable
+		var switchCases func(finfo *types.Info, sw *ast.SwitchStmt, assign bool, pdu types.Object) bool
+		switchCases = func(finfo *types.Info, sw *ast.SwitchStmt, assign bool, pdu types.Object) bool {
+			for _, c := range sw.Body.List {
+				cc := c.(*ast.CaseClause)
+				if cc.List == nil { // default
+					if assign && len(cc.Body) == 1 && isUnsupportedReturn(cc.Body[0]) {
+						unknownIsErr = true
+						continue
+					}
+					if !assign && len(cc.Body) == 1 {
+						if r, ok := cc.Body[0].(*ast.ReturnStmt); ok && len(r.Results) == 1 && isNil(r.Results[0]) {
+							continue
+						}
+					}
+					return false
+				}
+				tname := "?"
+				if len(cc.Body) == 1 {
+					if assign {
+						if a, ok := cc.Body[0].(*ast.AssignStmt); ok && a.Tok == token.ASSIGN && len(a.Lhs) == 1 && len(a.Rhs) == 1 {
+							if id, ok := a.Lhs[0].(*ast.Ident); ok && finfo.ObjectOf(id) == pdu {
+								tname = newType(finfo, a.Rhs[0])
+							}
+						}
+					} else if r, ok := cc.Body[0].(*ast.ReturnStmt); ok && len(r.Results) == 1 {
+						tname = newType(finfo, r.Results[0])
+					}
+				}
+				for _, cx := range cc.List {
+					if n, ok := constU64(finfo, cx); ok {
+						cases = append(cases, fmt.Sprintf("(%d, %s)", n, q(tname)))
+					} else {
+						cases = append(cases, fmt.Sprintf("(0, %s)", q("?"+w.pos(cx))))
+					}
+				}
+			}
+			return true
+		}
+		// pdu := newPduByCommand(header.CommandID): a library function whose body is one switch over its parameter
+		// returning new(T) per case, and nil otherwise
+		selectorCall := func(x ast.Expr) bool {
+			c, ok := unparen(x).(*ast.CallExpr)
+			if !ok || len(c.Args) != 1 {
+				return false
+			}
+			hfn, recv := w.callee(e, c)
+			if hfn == nil || recv != nil || hfn.Pkg() == nil || !strings.HasPrefix(hfn.Pkg().Path(), modPath) {
+				return false
+			}
+			hfd := w.funcs[hfn]
+			p, okp := w.fieldPath(e, c.Args[0])
+			if hfd == nil || hfd.Body == nil || !okp || len(hfd.Type.Params.List) != 1 || len(hfd.Type.Params.List[0].Names) != 1 {
+				return false
+			}
+			hinfo := w.infoOf[hfd]
+			param := hinfo.ObjectOf(hfd.Type.Params.List[0].Names[0])
+			body := hfd.Body.List
+			if len(body) == 0 || len(body) > 2 {
+				return false
+			}
+			sw, ok := body[0].(*ast.SwitchStmt)
+			if !ok || sw.Init != nil || sw.Tag == nil {
+				return false
+			}
+			if id, ok := unparen(sw.Tag).(*ast.Ident); !ok || hinfo.ObjectOf(id) != param {
+				return false
+			}
+			if len(body) == 2 {
+				if r, ok := body[1].(*ast.ReturnStmt); !ok || len(r.Results) != 1 || !isNil(r.Results[0]) {
+					return false
+				}
+			}
+			cmdField = p
+			return switchCases(hinfo, sw, false, nil)
+		}
 		for _, st := range fd.Body.List {
 			recognised := false
 			switch s := st.(type) {
 			case *ast.DeclStmt:
-				recognised = types.ExprString(s.Decl.(*ast.GenDecl).Specs[0].(*ast.ValueSpec).Names[0]) == "pdu" // var pdu sms.PDU
+				// var pdu sms.PDU
+				if gd, ok := s.Decl.(*ast.GenDecl); ok && gd.Tok == token.VAR && len(gd.Specs) == 1 {
+					if vs, ok := gd.Specs[0].(*ast.ValueSpec); ok && len(vs.Names) == 1 && len(vs.Values) == 0 && pduObj == nil {
+						if _, isIface := info.TypeOf(vs.Names[0]).Underlying().(*types.Interface); isIface && !types.Identical(info.TypeOf(vs.Names[0]), errType) {
+							pduObj = info.ObjectOf(vs.Names[0])
+							recognised = true
+						}
+					}
+				}
 			case *ast.ReturnStmt:
-				recognised = len(s.Results) == 2 && types.ExprString(s.Results[0]) == "pdu" && types.ExprString(s.Results[1]) == "nil"
+				// return pdu, nil
+				recognised = len(s.Results) == 2 && isPdu(s.Results[0]) && isNil(s.Results[1])
 			case *ast.AssignStmt:
 				// err = pdu.IDecode(data)
-				if len(s.Lhs) == 1 && len(s.Rhs) == 1 && types.ExprString(s.Lhs[0]) == "err" && types.ExprString(s.Rhs[0]) == "pdu.IDecode(data)" {
+				if len(s.Lhs) == 1 && len(s.Rhs) == 1 && isErrVar(s.Lhs[0]) && isDecodeCall(s.Rhs[0]) {
 					recognised = true
 				}
+				// pdu := newPduByCommand(header.CommandID)
+				if len(s.Lhs) == 1 && len(s.Rhs) == 1 && pduObj == nil && s.Tok == token.DEFINE {
+					if id, ok := s.Lhs[0].(*ast.Ident); ok {
+						if selectorCall(s.Rhs[0]) {
+							pduObj = info.ObjectOf(id)
+							recognised = true
+						}
+					}
+				}
 				// header, err := pkg.PeekHeader(data)
-				if len(s.Lhs) == 2 && len(s.Rhs) == 1 {
-					if c, ok := s.Rhs[0].(*ast.CallExpr); ok {
+				if len(s.Lhs) == 2 && len(s.Rhs) == 1 && isErrVar(s.Lhs[1]) {
+					if c, ok := s.Rhs[0].(*ast.CallExpr); ok && len(c.Args) == 1 && isObj(e, c.Args[0], dataObj) {
 						if pf, _ := w.callee(e, c); pf != nil && pf.Name() == "PeekHeader" {
-							hdrObj = info.ObjectOf(s.Lhs[0].(*ast.Ident))
-							e.paths[hdrObj] = "Header"
+							e.paths[info.ObjectOf(s.Lhs[0].(*ast.Ident))] = "Header"
 							peekMin = w.peekMin(pf)
 							recognised = true
 						}
 					}
 				}
 			case *ast.SwitchStmt:
-				recognised = s.Tag != nil && s.Init == nil
-				if s.Tag != nil {
+				if s.Tag != nil && s.Init == nil && pduObj != nil {
 					if p, ok := w.fieldPath(e, s.Tag); ok {
 						cmdField = p
-					}
-					for _, c := range s.Body.List {
-						cc := c.(*ast.CaseClause)
-						tname := "?"
-						if len(cc.Body) == 1 {
-							if a, ok := cc.Body[0].(*ast.AssignStmt); ok && len(a.Rhs) == 1 {
-								if call, ok := a.Rhs[0].(*ast.CallExpr); ok {
-									if id, ok := call.Fun.(*ast.Ident); ok && id.Name == "new" && len(call.Args) == 1 {
-										if nt, ok := info.TypeOf(call.Args[0]).(*types.Named); ok {
-											tname = nt.Obj().Pkg().Name() + "." + nt.Obj().Name()
-										}
-									}
-								}
-							}
-						}
-						for _, cx := range cc.List {
-							if n, ok := constU64(info, cx); ok {
-								cases = append(cases, fmt.Sprintf("(%d, %s)", n, q(tname)))
-							} else {
-								cases = append(cases, fmt.Sprintf("(0, %s)", q("?"+w.pos(cx))))
-							}
-						}
+						recognised = switchCases(info, s, true, pduObj)
 					}
 				}
 			case *ast.IfStmt:
-				// if pdu == nil { return nil, sms.ErrUnsupportedPacket }
-				if types.ExprString(s.Cond) == "pdu == nil" && len(s.Body.List) == 1 && s.Init == nil && s.Else == nil {
-					if r, ok := s.Body.List[0].(*ast.ReturnStmt); ok && len(r.Results) == 2 && strings.HasSuffix(types.ExprString(r.Results[1]), "ErrUnsupportedPacket") {
-						unknownIsErr = true
-						recognised = true
-					}
+				if s.Else != nil || len(s.Body.List) != 1 {
+					break
 				}
-				// if err != nil { return nil, err }   |   if err = pdu.IDecode(data); err != nil { return nil, err }
-				if types.ExprString(s.Cond) == "err != nil" && s.Else == nil && len(s.Body.List) == 1 {
-					if r, ok := s.Body.List[0].(*ast.ReturnStmt); ok && len(r.Results) == 2 && types.ExprString(r.Results[0]) == "nil" && types.ExprString(r.Results[1]) == "err" {
-						if s.Init == nil {
-							recognised = true
-						} else if a, ok := s.Init.(*ast.AssignStmt); ok && len(a.Rhs) == 1 && types.ExprString(a.Rhs[0]) == "pdu.IDecode(data)" {
-							recognised = true
-						}
+				cond, ok := unparen(s.Cond).(*ast.BinaryExpr)
+				if !ok {
+					break
+				}
+				// if pdu == nil { return nil, sms.ErrUnsupportedPacket }
+				if cond.Op == token.EQL && isPdu(cond.X) && isNil(cond.Y) && s.Init == nil && isUnsupportedReturn(s.Body.List[0]) {
+					unknownIsErr = true
+					recognised = true
+				}
+				// if err != nil { return nil, err }   |   if err = pdu.IDecode(data); err != nil { return nil, err }  (also with :=)
+				if cond.Op == token.NEQ && isErrVar(cond.X) && isNil(cond.Y) && isErrReturn(s.Body.List[0]) {
+					if s.Init == nil {
+						recognised = true
+					} else if a, ok := s.Init.(*ast.AssignStmt); ok && len(a.Lhs) == 1 && len(a.Rhs) == 1 && isErrVar(a.Lhs[0]) && isDecodeCall(a.Rhs[0]) {
+						recognised = true
 					}
 				}
 			}
